@@ -443,6 +443,14 @@ func (z *ZKServer) record(e ZKEvent) {
 func (z *ZKServer) rawSet(path string, data string) {
 	parts := strings.Split(strings.Trim(path, "/"), "/")
 	cur := ""
+	// an ephemeral node has no children (the server refuses the create): the tool's write fails
+	chk := ""
+	for _, p := range parts[:len(parts)-1] {
+		chk += "/" + p
+		if n := z.tree[chk]; n != nil && n.owner != 0 {
+			return
+		}
+	}
 	for i, p := range parts {
 		par := cur
 		if par == "" {
@@ -796,6 +804,8 @@ func (z *ZKServer) handle(c *memConn, req []byte) {
 		ev.Op, ev.Path = "delete", path
 		n := z.tree[path]
 		switch {
+		case path == "/":
+			errc = zkErrBadArguments // the root cannot be deleted
 		case n == nil:
 			errc = zkErrNoNode
 		case ver != -1 && ver != n.version:
